@@ -9,9 +9,10 @@ A case is {"target": PV, "expr": E}:
       | {"dict":[[E,E]…]} | {"call":{"args":[E…],"kwargs":[[name,E]…]}}
 run_impl builds the real objects from the case, runs glom.glom(target, T-expression) and —
 independently, on a fresh copy of the target — applies the same chain of operations directly with
-Python's own operators (arguments evaluated when their operation is reached; call arguments passed
-by value).  Both legs also report the target object as it is afterwards (`impl_after`,
-`direct_after`): recorded calls may change it (list.pop / append, dict.pop / setdefault).
+Python's own operators (arguments evaluated when their operation is reached; a call is a plain
+Python call).  Both legs also report the target object as it is afterwards (`impl_after`,
+`direct_after`: recorded calls may change it — list.pop / append, dict.pop / setdefault) and where in
+the target the very result object sits (`impl_alias`, `direct_alias`: identity, not equality).
 """
 import json
 import operator
@@ -25,8 +26,8 @@ LEAN_MODULES = ['Glom.Props.C02']
 FACT_FILES = ['TFacts', 'ExcFacts']
 READY = True
 MANIFEST = dict(
-    text="Lean 4 theorems, for every value type, every state type and every primitive semantics `prim` of getattr/subscription/arithmetic/calls — each operation takes a state and returns the state it leaves, so calls may CHANGE the target — (a parameter, so the statement is about glom's record-and-replay logic), every target, every start state and every T expression of any length and nesting of T / Spec(T) / list / tuple / dict arguments: `_t_eval` on the object recorded by the TType overloads (flat tuple, index stepping by 2, branch table, arg_val on every argument INSIDE the loop against the original target object in its current state, calls routed through Call) equals the chain of operations applied directly, left to right, as a pair (outcome, state left) — also when it ends with an error (`c02_replay`); the first failing attribute/item/arithmetic step is PathAccessError(position), a failing call keeps its class (`c02_error_classes`); a nested argument is evaluated on the original target object in the state left by the operations before it (`c02_args_from_root`); evaluating all arguments in front of the loop is NOT equivalent (`c02_hoisted_args_counterexample`); call arguments of type list/tuple/dict reach the callee by value, and the property is false without saying so (`c02_call_by_value_counterexample`); per-run facts obligation `c02_facts_wf` by `decide` on the tables regenerated from /repo: every op char recorded by a TType overload has a `_t_eval` branch performing the operation its dunder denotes (no recorded operation is dropped). Model tied to the code by a three-way differential check: real glom vs the same chain applied with Python's own operators vs the compiled Lean model/reference (instance: values with object identity in a heap), comparing outcome AND the target object afterwards.",
-    note="trusted: Lean kernel + {propext, Classical.choice, Quot.sound}; extractor (TType overloads, _t_eval branch table, except clauses, part_idx expression); harness/driver; Python's primitive semantics is a theorem parameter, its executable instance (Glom/Model/C02Heap.lean on top of C02Prim.lean: a heap of list/tuple/dict/object/slice/bound-method cells with identity, list.pop/append, dict.pop/setdefault/get, floor division, two's-complement bit ops, IEEE true division, slices, str/list/tuple/dict operations, a catalogue of callables) is validated on every case against CPython itself, including the final state of the target; hypothesis `Plain` (target data contains no glom spec objects: Call.glomit passes already evaluated arguments through arg_val again, which for plain data is by-value passing of list/tuple/dict; counter-example kept as theorem); reading §6.1 (a failing call keeps its exception class; a failing nested T argument reports its own position); S/A roots, Path segments and wildcards are other properties.",
+    text="Lean 4 theorems, for every value type, every state type and every primitive semantics `prim` of getattr/subscription/arithmetic/calls — each operation takes a state and returns the state it leaves, so calls may CHANGE the target — (a parameter, so the statement is about glom's record-and-replay logic), every target, every start state and every T expression of any length and nesting of T / Spec(T) / list / tuple / dict arguments: `_t_eval` on the object recorded by the TType overloads (flat tuple, index stepping by 2, branch table, arg_val on every argument INSIDE the loop against the original target object in its current state, the recorded (args, kwargs) of a call handed unevaluated to Call, which evaluates callee / arguments / keyword arguments once and calls) equals the chain of operations applied directly, left to right, as a pair (outcome, state left) — also when it ends with an error (`c02_replay`); the first failing attribute/item/arithmetic step is PathAccessError(position), a failing call keeps its class (`c02_error_classes`); a nested argument is evaluated on the original target object in the state left by the operations before it (`c02_args_from_root`); evaluating all arguments in front of the loop is NOT equivalent (`c02_hoisted_args_counterexample`); the callee of a recorded call receives the very objects its arguments evaluate to, each evaluated exactly once (`c02_call_by_reference`, `c02_args_evaluated_once`; the code shape before /repo commit db9b8f7, a second arg_val pass, does not replay: `c02_second_pass_counterexample`); per-run facts obligation `c02_facts_wf` by `decide` on the tables regenerated from /repo: every op char recorded by a TType overload has a `_t_eval` branch performing the operation its dunder denotes (no recorded operation is dropped). Model tied to the code by a three-way differential check: real glom vs the same chain applied with Python's own operators vs the compiled Lean model/reference (instance: values with object identity in a heap), comparing outcome, identity of the result object (its alias path in the target) AND the target object afterwards.",
+    note="trusted: Lean kernel + {propext, Classical.choice, Quot.sound}; extractor (TType overloads, _t_eval branch table, except clauses, part_idx expression); harness/driver; Python's primitive semantics is a theorem parameter, its executable instance (Glom/Model/C02Heap.lean on top of C02Prim.lean: a heap of list/tuple/dict/object/slice/bound-method cells with identity, list.pop/append, dict.pop/setdefault/get, floor division, two's-complement bit ops, IEEE true division, slices, str/list/tuple/dict operations, a catalogue of callables) is validated on every case against CPython itself, including the final state of the target; hypothesis `PlainCallee` (the CALLEE of a recorded call is not a glom spec object stored in the target: Call.glomit passes the already evaluated callee through arg_val, a callable is a literal there; counter-example kept as theorem `c02_callee_eval_counterexample`; arguments need no hypothesis); the exemption `if op != '('` of the loop is a hard-coded character in the model, tied to the extracted branch table by the facts obligation `callCharOk` (the exempted character is the call branch's and only it); reading §6.1 (a failing call keeps its exception class; a failing nested T argument reports its own position); S/A roots, Path segments and wildcards are other properties.",
     technique='Lean 4 refinement proof (flat ops loop + arg_val recursion = direct application of the operator chain, generic in the primitive semantics) + facts obligation by decide + three-way differential correspondence',
     ref='DESIGN.md §3 C02, §6.1')
 RULE = ('type-directed: a nested target (dict / list / tuple / attribute objects / str / int / bool / None / '
@@ -44,20 +45,21 @@ RULE = ('type-directed: a nested target (dict / list / tuple / attribute objects
         'ordinary steps; after one, the index of access paths is rebuilt so that later nested arguments read '
         'the changed containers; templates T[l].pop() <op> T[l][i], … + len(T[l]), dict pop / setdefault then a '
         'read of the same key; thorough: every (list op) x (later nested read) x (outer operator) on a small '
-        'list. Targets are trees (no object reachable by two paths) — sharing only arises during evaluation. '
+        'list. Reference templates: the identity / mklist / kw catalogue functions called with containers of '
+        'the target (the result must BE the target\'s object: alias path compared), mutation through the returned '
+        'argument followed by a read of the same container, a T object stored in the target passed as '
+        '(keyword) argument or inside a list argument (must come back as that object, compared by repr). '
+        'Targets are trees (no object reachable by two paths) — sharing only arises during evaluation. '
         'non-trivial = at least two operations, or a failing chain, or a nested T argument; '
         'distinct = distinct (target, expression)')
 TRUSTED = ['Glom/Model/C02Prim.lean (executable instance of the primitive semantics) is validated against '
            'CPython on every generated case (third leg of the comparison), not verified',
            'strings are ASCII; floats arise only from `/` (compared by float.hex()); int ** negative, '
            'float // % **, str % x are outside the kernel (property still evaluated against Python\'s own result)']
-ASSUMPTIONS = ['targets are plain data: no glom spec objects (T, Spec, …) stored inside the target '
-               '(Call.glomit passes already evaluated arguments through arg_val again: '
-               'glom({"f": ident, "a": T["b"], "b": 5}, T["f"](T["a"])) == 5)',
-               'a recorded call passes list / tuple / dict arguments BY VALUE (the same second arg_val pass '
-               'rebuilds them): glom(t, T["f"](T["l"]).append(2)) with f = identity leaves t["l"] unchanged, '
-               't["f"](t["l"]).append(2) does not; the reference semantics says "by value" (Prim.passCall), '
-               'theorem c02_call_by_value_counterexample shows the property is false otherwise',
+ASSUMPTIONS = ['the CALLEE of a recorded call is not a glom spec object stored in the target (Call.glomit runs '
+               'arg_val over the already evaluated callee: glom({"g": T["f"], "f": ident}, T["g"](1)) calls ident, '
+               'target["g"](1) would build the expression T["f"](1)); stored T objects as ARGUMENTS are fine and '
+               'generated (evaluated once since /repo commit db9b8f7)',
                'the target is a tree when the evaluation starts (no object reachable by two paths)',
                'T-rooted expressions; S/A roots are C07, Path segments C01, wildcards C14',
                'Spec arguments wrap T expressions; Val/Call/other spec objects as arguments are outside the fragment',
@@ -155,6 +157,8 @@ def dec(j):
         return {dec(k): dec(v) for k, v in j['d']}
     if 'fn' in j:
         return FUNCS[j['fn']]
+    if 'sent' in j:
+        return tobjs()[j['sent']]            # a glom T object stored in the target as plain data
     if 'o' in j:
         cls, attrs = j['o']
         if cls == 'slice':
@@ -170,9 +174,23 @@ def dec(j):
     raise ValueError('cannot decode %r' % (j,))
 
 
+_TOBJS = {}
+
+
+def tobjs():
+    """the T objects a target may contain as data, by their repr"""
+    if not _TOBJS:
+        from glom import T
+        for t in (T['b'], T['n'], T['l'][0], T['zz']):
+            _TOBJS[repr(t)] = t
+    return _TOBJS
+
+
 def enc(v, depth=0):
     if depth > 40:
         return {'sent': '<deep>'}
+    if type(v).__name__ == 'TType':
+        return {'sent': repr(v)}
     if v is None:
         return None
     if isinstance(v, bool):
@@ -218,26 +236,6 @@ class DirectFail(Exception):
         self.obs = obs
 
 
-def by_value(v, cache=None):
-    """how a recorded call passes its function and arguments (the reference's `passCall`):
-    list / dict / tuple containers by value — rebuilt, members likewise, one copy per object and
-    pass —, every other object as it is.  Written independently of glom's `_ArgValuator`."""
-    cache = {} if cache is None else cache
-    t = type(v)
-    if t is list or t is dict:
-        if id(v) in cache:
-            return cache[id(v)]
-        res = cache[id(v)] = t()
-        if t is dict:
-            res.update({by_value(k, cache): by_value(x, cache) for k, x in v.items()})
-        else:
-            res.extend([by_value(x, cache) for x in v])
-        return res
-    if t in (tuple, set, frozenset):
-        return t([by_value(x, cache) for x in v])
-    return v
-
-
 def apply_op(d, cur, av):
     """the Python operation the dunder denotes, applied directly"""
     if d == '__getattr__':
@@ -246,8 +244,7 @@ def apply_op(d, cur, av):
         return cur[av]
     if d == '__call__':
         args, kwargs = av
-        f, a, k = by_value(cur), by_value(tuple(args)), by_value(dict(kwargs))
-        return f(*a, **k)
+        return cur(*args, **kwargs)           # a plain Python call: arguments by reference
     if d == '__invert__':
         return ~cur
     if d == '__neg__':
@@ -295,10 +292,41 @@ def direct_chain(steps, target):
 
 
 def direct_obs(expr, target):
+    """(observation, the result object or None)"""
     try:
-        return {'ok': enc(direct_chain(expr['T'], target))}
+        res = direct_chain(expr['T'], target)
+        return {'ok': enc(res)}, res
     except DirectFail as f:
-        return f.obs
+        return f.obs, None
+
+
+def alias_path(root, x):
+    """where the very object `x` (identity) sits in `root`: the first access path, depth-first in
+    container order, as a PV list of dict keys / indices / attribute names; None when `x` is not
+    a list / dict / attribute object or is not reachable"""
+    if type(x) not in (list, dict, pyobjs.Obj, pyobjs.Obj2):
+        return None
+    seen = set()
+
+    def walk(v, path):
+        if v is x:
+            return path
+        if type(v) not in (list, tuple, dict, pyobjs.Obj, pyobjs.Obj2) or id(v) in seen:
+            return None
+        seen.add(id(v))
+        if type(v) is dict:
+            kids = [(enc(k), c) for k, c in v.items()]
+        elif type(v) in (list, tuple):
+            kids = [({'i': i}, c) for i, c in enumerate(v)]
+        else:
+            kids = [({'s': k}, c) for k, c in v.__dict__.items()]
+        for step, c in kids:
+            p = walk(c, path + [step])
+            if p is not None:
+                return p
+        return None
+    p = walk(root, [])
+    return None if p is None else {'l': p}
 
 
 # ---------------------------------------------------------------- building the real T expression
@@ -350,7 +378,7 @@ def exc_name(e):
 def run_impl(case):
     import glom
     from glom import GlomError, PathAccessError
-    out = {k: v for k, v in case.items() if k not in ('impl', 'direct', 'impl_after', 'direct_after')}
+    out = {k: v for k, v in case.items() if k not in ('impl', 'direct', 'impl_after', 'direct_after', 'impl_alias', 'direct_alias')}
     target = dec(case['target'])
     if case.get('prebuild'):
         # a twin expression (equal-but-differently-typed literal at one position) written first in
@@ -360,6 +388,7 @@ def run_impl(case):
         except Exception:
             pass
     spec = build_t(case['expr']['T'])
+    res = None
     try:
         res = glom.glom(target, spec)
     except PathAccessError as e:
@@ -370,10 +399,12 @@ def run_impl(case):
     else:
         out['impl'] = {'ok': enc(res)}
     out['impl_after'] = enc(target)          # what the recorded calls did to the target object
+    out['impl_alias'] = alias_path(target, res)     # is the result one of the target's own objects?
     # the same chain, applied directly with Python's own operators to a fresh copy of the target
     fresh = dec(case['target'])
-    out['direct'] = direct_obs(case['expr'], fresh)
+    out['direct'], dres = direct_obs(case['expr'], fresh)
     out['direct_after'] = enc(fresh)
+    out['direct_alias'] = alias_path(fresh, dres)
     return out
 
 
@@ -901,6 +932,44 @@ def stateful_templates(r):
     return {'target': enc(target), 'expr': {'T': steps}}
 
 
+def reference_templates(r):
+    """a recorded call is a plain Python call: the callee receives the very objects its arguments
+    evaluate to (identity of a returned argument, mutation through it), and an argument is evaluated
+    once (a T object stored in the target comes back as that object)"""
+    from glom import T
+    n = r.randint(2, 4)
+    target = {'l': [r.choice(INTS[:11]) for _ in range(n)], 'd': {'a': r.choice(INTS), 'b': r.choice(INTS)},
+              'o': pyobjs.Obj(a=[1, 2], b=r.choice(INTS)), 'n': r.choice(INTS), 'b': r.choice(INTS),
+              'ident': ident, 'mklist': mklist, 'kw': kw, 'len': len,
+              'a': r.choice([T['b'], T['n'], T['l'][0], T['zz']])}
+    call = lambda *a, **k: ['__call__', {'call': {'args': list(a), 'kwargs': [[x, y] for x, y in k.items()]}}]
+    G = lambda *ks: {'T': [['__getitem__', lit(k)] for k in ks]}
+    src = r.choice([G('l'), G('d'), G('o'), {'T': [['__getitem__', lit('o')], ['__getattr__', lit('a')]]}])
+    f = ['__getitem__', lit('ident')]
+    k = r.random()
+    if k < 0.2:       # identity of the returned argument
+        steps = [f, call(src) if r.random() < 0.6 else call(x=src)]
+    elif k < 0.3:
+        steps = [['__getitem__', lit('mklist')], call(G('n'), src, src), ['__getitem__', lit(r.choice([1, 2, -1]))]]
+    elif k < 0.5:     # mutation through the returned argument, then a read of the same object
+        steps = [f, call(G('l')), ['__getattr__', lit('pop')], call(),
+                 [r.choice(['__add__', '__mul__', '__sub__']), {'T': [['__getitem__', lit('l')], ['__getitem__', lit(-1)]]}]]
+    elif k < 0.6:
+        inner = {'T': [f, call(G('l')), ['__getattr__', lit('append')], call(lit(r.choice(INTS)))]}
+        steps = [['__getitem__', lit('mklist')], call(inner, G('l'))]
+    elif k < 0.7:
+        steps = [f, call(G('d')), ['__getattr__', lit('setdefault')], call(lit('new'), G('n')),
+                 ['__add__', {'T': [['__getitem__', lit('d')], ['__getitem__', lit('new')]]}]]
+    elif k < 0.78:
+        steps = [f, call(G('d')), ['__getattr__', lit('pop')], call(lit('a')),
+                 ['__add__', {'T': [['__getitem__', lit('len')], call(G('d'))]}]]
+    elif k < 0.9:     # a T object stored in the target, passed as an argument: evaluated once
+        steps = [f, call(G('a')) if r.random() < 0.6 else call(x=G('a'))]
+    else:
+        steps = [['__getitem__', lit('mklist')], call(G('a'), G('b'), {'list': [G('a')]})]
+    return {'target': enc(target), 'expr': {'T': steps}}
+
+
 def failing_nested_step(r, g):
     """a later operation whose nested T argument fails as well (never reached)"""
     inner = r.choice([[['__getitem__', lit('nope')]], [['__getattr__', lit('zz')]],
@@ -943,6 +1012,7 @@ def generate(rng, tier, scale, **focus):
         yield twin_templates(rng)
         if STATEFUL:
             yield stateful_templates(rng)
+        yield reference_templates(rng)
     if tier == 'thorough' and not focus:
         yield from exhaustive()
         if STATEFUL:
@@ -1018,7 +1088,7 @@ def corpus():
          'expr': {'T': [['__getitem__', lit('l')], ['__getattr__', lit('pop')],
                         ['__call__', {'call': {'args': [], 'kwargs': []}}],
                         ['__add__', {'T': [['__getitem__', lit('l')], ['__getitem__', lit(-1)]]}]]}},
-        # list arguments reach the callee by value: the identity function returns a copy
+        # arguments reach the callee by reference: the identity function returns the target's own list
         {'target': enc({'f': ident, 'l': [1]}),
          'expr': {'T': [['__getitem__', lit('f')],
                         ['__call__', {'call': {'args': [{'T': [['__getitem__', lit('l')]]}], 'kwargs': []}}],
@@ -1067,7 +1137,7 @@ def nontrivial(case, verdict):
 
 
 def shrink(case):
-    base = {k: v for k, v in case.items() if k not in ('impl', 'direct', 'impl_after', 'direct_after')}
+    base = {k: v for k, v in case.items() if k not in ('impl', 'direct', 'impl_after', 'direct_after', 'impl_alias', 'direct_alias')}
     steps = case['expr']['T']
     for i in range(len(steps)):
         c = dict(base)
